@@ -55,6 +55,29 @@ var rmCmd = &cobra.Command{
 
 		// remove file from working tree and index
 		for _, arg := range args {
+			// if the arg is registered as directory in the index,
+			// remove exactly the tracked files beneath it (whether or not they still exist in the working tree)
+			cleanedDirArg := strings.ReplaceAll(filepath.Clean(arg), `\`, "/")
+			if client.Idx.IsRegisteredAsDirectory(cleanedDirArg) {
+				var trackedPaths []string
+				for _, entry := range client.Idx.GetEntriesByDirectory(cleanedDirArg) {
+					trackedPaths = append(trackedPaths, string(entry.Path))
+				}
+				for _, trackedPath := range trackedPaths {
+					if err := removeFromWorkingTree(trackedPath); err != nil {
+						return err
+					}
+					if err := client.Idx.DeleteEntry(client.RootGoitPath, []byte(trackedPath)); err != nil {
+						return fmt.Errorf("fail to delete '%s' from the index: %w", trackedPath, err)
+					}
+				}
+				continue
+			}
+			if _, _, isStillRegistered := client.Idx.GetEntry([]byte(cleanedDirArg)); !isStillRegistered {
+				// the path passed the validation above, so an earlier argument has already removed it
+				continue
+			}
+
 			// if the arg is directory
 			if f, err := os.Stat(arg); !os.IsNotExist(err) && f.IsDir() {
 				// get file paths under directory
